@@ -18,7 +18,7 @@ CHECKS = {
             "All-paths structural proof over the type-checked MIR of Client::startup: every CFG path to the AuthenticationOk write crosses a trust arm or the equal edge of a comparison between the client's response buffer and an MD5 hash computed from configured secrets and the salt issued on this connection; pool-found and admin-only gates likewise; Client values are only constructed behind auth_ok. Decides the authentication mechanism for every input, not sampled inputs.",
             "Does not decide MD5 itself, TLS, or timing. " + TRUST, "DESIGN.md §4 C09"),
     "C13": ("constant-table extraction + must-pass-through reply discipline over MIR CFG + taint-based panic-site inventory with discharge table",
-            "All-sites/all-paths structural decision over the type-checked MIR: the 7 command regexes (read from the compiled constant) are anchored  without top-level alternation, aligned index-by-index with the Command variant the handler returns, with capture groups exactly on the SET forms and the role alternation equal to the handled literals; every Command arm of handle_custom_protocol sends exactly one reply ending in ReadyForQuery before Ok(true); handled => no checkout/send in that iteration, not-a-command => Ok(false) with no client write; SHOW reads the fields SET writes; every panic-capable operation in try_execute_command on data tainted by the query text is either in the discharge table (with a reason, some re-verified structurally) or a violation.",
+            "All-sites/all-paths structural decision over the type-checked MIR: the 7 command regexes (read from the compiled constant) are anchored (?i)^...$ without top-level alternation, aligned index-by-index with the Command variant the handler returns, with capture groups exactly on the SET forms and the role alternation equal to the handled literals; every Command arm of handle_custom_protocol sends exactly one reply ending in ReadyForQuery before Ok(true); handled => no checkout/send in that iteration, not-a-command => Ok(false) with no client write; SHOW reads the fields SET writes; every panic-capable operation in try_execute_command on data tainted by the query text is either in the discharge table (with a reason, some re-verified structurally) or a violation.",
             "Regex matching over all strings is not evaluated (only the table's shape); regex crate semantics trusted. " + TRUST, "DESIGN.md §4 C13"),
 }
 
